@@ -14,7 +14,8 @@ def sh_printf(bs):
 def hook_cmd(tok, r):
     if r[0] == "nostart":
         return 'echo %s >> "$TRACE"; echo {{.UndefinedVariable}}' % tok
-    return 'echo %s >> "$TRACE"; exit %d' % (tok, r[1])
+    # hooks and conditions SAY something on both streams: what a command prints must not change how its exit status is read
+    return 'echo %s >> "$TRACE"; echo "%s speaking"; echo "%s complaining" >&2; exit %d' % (tok, tok, tok, r[1])
 
 
 def job_cmd(c, per_var):
